@@ -43,6 +43,50 @@ theorem horn_crel (c : Term) (hc : clauseC fl c = true) :
     rw [hhb]
     exact ⟨cl, hcomp, .fact hl hcode⟩
 
+theorem forall2_of_index {α β : Type} {R : α → β → Prop} : ∀ {as : List α} {bs : List β},
+    as.length = bs.length → (∀ (i : Nat) a b, as[i]? = some a → bs[i]? = some b → R a b) → Forall2 R as bs
+  | [], [], _, _ => .nil
+  | [], _ :: _, h, _ => by simp at h
+  | _ :: _, [], h, _ => by simp at h
+  | a :: as, b :: bs, h, hR =>
+    .cons (hR 0 a b rfl rfl) (forall2_of_index (by simpa using h) (fun i a' b' ha hb => hR (i + 1) a' b' (by simpa using ha) (by simpa using hb)))
+
+/-- **a rule whose body has several alternatives** compiles to one clause per alternative, each
+    related to the head and that alternative -/
+theorem rule_layouts (h b : Term) (hwh : wfT h = true) (hwb : wfT b = true) (hh : headOK h = true)
+    (hds : ∀ dj ∈ SLD.disjuncts b, bodyS fl dj = true) :
+    ∃ cs, compile (toRep (.app ":-" (.cons h (.cons b .nil)))) = .ok cs ∧
+      Forall2 (fun cl dj => CRel fl cl h dj) cs (SLD.disjuncts b) := by
+  obtain ⟨hch, hwfh, hname, hargs, _⟩ := hornHead_toRep hh hwh
+  have hwfb := toRep_wf b hwb
+  have hrep : toRep (.app ":-" (.cons h (.cons b .nil))) =
+      .compound ":-" (.cons (toRep h) (.cons (toRep b) .nil)) := by
+    rw [toRep_app_ne_dot _ _ (by decide)]; rfl
+  rw [hrep]
+  have halt := altBodies_disj b
+  cases hcomp : compile (.compound ":-" (.cons (toRep h) (.cons (toRep b) .nil))) with
+  | error e =>
+    exfalso
+    obtain ⟨alt, hm, g, hg, hcg⟩ := (error_statement (toRep h) (toRep b) hwfh hwfb hch).1 ⟨e, hcomp⟩
+    rw [halt, List.mem_map] at hm
+    obtain ⟨dj, hdj, rfl⟩ := hm
+    rw [(bodyOK_goals dj (hds dj hdj) g hg).1] at hcg
+    cases hcg
+  | ok cs =>
+    obtain ⟨hlen, _⟩ := rule_statement (toRep h) (toRep b) cs hwfh hwfb hch hcomp
+    refine ⟨cs, rfl, forall2_of_index (by rw [hlen, halt, List.length_map]) ?_⟩
+    intro i cl dj hcl hdj
+    have hdjm : dj ∈ SLD.disjuncts b := List.mem_of_getElem? hdj
+    have ha : (altBodies (toRep b))[i]? = some (toRep dj) := by
+      rw [halt, List.getElem?_map, hdj]; rfl
+    obtain ⟨bops, hcode, hsem, hpre, hnd, hn, har⟩ :=
+      rule_clause_layout (toRep h) (toRep b) cs hwfh hwfb hch hcomp i cl (toRep dj) hcl ha
+    refine .rule (hargs := headArgs (toRep h))
+      ⟨wfs_headArgs _ hwfh, hpre, hnd, by rw [hn, hname], ?_, hargs, hh⟩ hcode hsem (seqGoals_toRep dj) ?_
+    · rw [har, ← hargs, absArgs_toList_length]
+    · intro g hg
+      exact (bodyOK_goals dj (hds dj hdjm) g hg).2
+
 /-- the clause a term of the fragment compiles to -/
 def clauseOf (c : Term) : Clause :=
   match compile (toRep c) with
@@ -233,29 +277,6 @@ theorem lookup_other (prog : List Term) (hp : ∀ c ∈ prog, clauseS fl c = tru
   rw [key prog _ hp hnil, lookupProc_cancel]
 
 /-! ## the reference's clause list -/
-
-theorem disjuncts_horn (b : Term) (h : bodyS fl b = true) : SLD.disjuncts b = [b] := by
-  unfold SLD.disjuncts
-  split
-  · rfl
-  · rename_i a b' hna
-    exfalso
-    have : SLD.conjuncts (.app ";" (.cons a (.cons b' .nil))) = [.app ";" (.cons a (.cons b' .nil))] := by
-      simp [SLD.conjuncts, SLD.wrapVar]
-    simp only [bodyS, this, List.all_cons, List.all_nil, Bool.and_true] at h
-    rcases goalS_cases h with h | h
-    · simp [SLD.mk2] at h
-    rcases stepGoal_cases h with h | ⟨_, hc⟩
-    · rw [not_horn_reserved (by decide) (by decide)] at h; cases h
-    · cases hc with
-      | call x' hx' => simp at hx'
-      | ite c t e hx' =>
-        simp only [Term.app.injEq, Args.cons.injEq, true_and, and_true] at hx'
-        exact hna c t hx'.1
-      | ifthen c t hx' => simp at hx'
-      | once x' hx' => simp at hx'
-      | neg x' hx' => simp at hx'
-  · rfl
 
 /-- the clause as the reference stores it: `Head :- Body` -/
 def ruleOf (c : Term) : Term := SLD.rule (SLD.headBody c).1 (SLD.headBody c).2
